@@ -162,6 +162,12 @@ end lines
 
 /-! ### the candidates, direction by direction -/
 
+theorem run_wt (w : Nat) (F G : Nat → Nat) (n : Nat) :
+    ∀ e ∈ (List.range n).map (fun j => cv w (F j) (G j)), wtB e = true := by
+  intro e he
+  simp only [List.mem_map] at he
+  obtain ⟨j, _, rfl⟩ := he; rfl
+
 section cand
 variable {pb : Problem} (σ : Asg) (g : Nat → Nat → Bool)
   (hg : ∀ y, y < pb.height → ∀ x, x < pb.width → g y x = σ.b (y * pb.width + x))
@@ -179,12 +185,6 @@ theorem run_sem (F G : Nat → Nat) (n : Nat) (hF : ∀ j, j < n → F j < pb.he
   · rintro h e ⟨j, hj, rfl⟩
     rw [eval_cv σ g hg (hF j hj) (hG j hj), h j hj]
 
-theorem run_wt (w : Nat) (F G : Nat → Nat) (n : Nat) :
-    ∀ e ∈ (List.range n).map (fun j => cv w (F j) (G j)), wtB e = true := by
-  intro e he
-  simp only [List.mem_map] at he
-  obtain ⟨j, _, rfl⟩ := he; rfl
-
 variable {y x m : Nat}
 
 theorem up_sem (hy : y < pb.height) (hx : x < pb.width) :
@@ -193,7 +193,7 @@ theorem up_sem (hy : y < pb.height) (hx : x < pb.width) :
       ((y + 1 = m ∨ m < y + 1) ∧ (∀ j, j < m - 1 → g (y + 1 - m + j) x = true) ∧
         (¬ y + 1 = m → g (y - m) x = false)) := by
   rw [show cv pb.width (y - m) x = .bvar ((y - m) * pb.width + x) from rfl,
-    dirCands_sem σ _ _ _ _ (run_wt σ g hg _ _ _ _)]
+    upRun, dirCands_sem σ _ _ _ _ (run_wt _ _ _ _)]
   have hs : g (y - m) x = σ.b ((y - m) * pb.width + x) := hg _ (by omega) _ hx
   rw [hs]
   constructor
@@ -202,13 +202,13 @@ theorem up_sem (hy : y < pb.height) (hx : x < pb.width) :
   · rintro ⟨hf, hr, hst⟩
     exact ⟨hf, (run_sem σ g hg _ _ _ (by intro j hj; omega) (fun _ _ => hx)).2 hr, hst⟩
 
-theorem dn_sem (hy : y < pb.height) (hx : x < pb.width) :
+theorem dn_sem (_hy : y < pb.height) (hx : x < pb.width) :
     (∃ c ∈ dirCands (y + m = pb.height) (y + m < pb.height) (dnRun pb.width y x m) (cv pb.width (y + m) x),
         eval σ c = some (.b true)) ↔
       ((y + m = pb.height ∨ y + m < pb.height) ∧ (∀ j, j < m - 1 → g (y + 1 + j) x = true) ∧
         (¬ y + m = pb.height → g (y + m) x = false)) := by
   rw [show cv pb.width (y + m) x = .bvar ((y + m) * pb.width + x) from rfl,
-    dirCands_sem σ _ _ _ _ (run_wt σ g hg _ _ _ _)]
+    dnRun, dirCands_sem σ _ _ _ _ (run_wt _ _ _ _)]
   constructor
   · rintro ⟨hf, hr, hst⟩
     refine ⟨hf, (run_sem σ g hg _ _ _ (by intro j hj; omega) (fun _ _ => hx)).1 hr, fun hne => ?_⟩
@@ -223,7 +223,7 @@ theorem lf_sem (hy : y < pb.height) (hx : x < pb.width) :
       ((x + 1 = m ∨ m < x + 1) ∧ (∀ j, j < m - 1 → g y (x + 1 - m + j) = true) ∧
         (¬ x + 1 = m → g y (x - m) = false)) := by
   rw [show cv pb.width y (x - m) = .bvar (y * pb.width + (x - m)) from rfl,
-    dirCands_sem σ _ _ _ _ (run_wt σ g hg _ _ _ _)]
+    lfRun, dirCands_sem σ _ _ _ _ (run_wt _ _ _ _)]
   have hs : g y (x - m) = σ.b (y * pb.width + (x - m)) := hg _ hy _ (by omega)
   rw [hs]
   constructor
@@ -232,13 +232,13 @@ theorem lf_sem (hy : y < pb.height) (hx : x < pb.width) :
   · rintro ⟨hf, hr, hst⟩
     exact ⟨hf, (run_sem σ g hg _ _ _ (fun _ _ => hy) (by intro j hj; omega)).2 hr, hst⟩
 
-theorem rt_sem (hy : y < pb.height) (hx : x < pb.width) :
+theorem rt_sem (hy : y < pb.height) (_hx : x < pb.width) :
     (∃ c ∈ dirCands (x + m = pb.width) (x + m < pb.width) (rtRun pb.width y x m) (cv pb.width y (x + m)),
         eval σ c = some (.b true)) ↔
       ((x + m = pb.width ∨ x + m < pb.width) ∧ (∀ j, j < m - 1 → g y (x + 1 + j) = true) ∧
         (¬ x + m = pb.width → g y (x + m) = false)) := by
   rw [show cv pb.width y (x + m) = .bvar (y * pb.width + (x + m)) from rfl,
-    dirCands_sem σ _ _ _ _ (run_wt σ g hg _ _ _ _)]
+    rtRun, dirCands_sem σ _ _ _ _ (run_wt _ _ _ _)]
   constructor
   · rintro ⟨hf, hr, hst⟩
     refine ⟨hf, (run_sem σ g hg _ _ _ (fun _ _ => hy) (by intro j hj; omega)).1 hr, fun hne => ?_⟩
@@ -260,5 +260,45 @@ theorem cands_sem (hy : y < pb.height) (hx : x < pb.width) (hm : 1 ≤ m) (h0 : 
   simp only [h0, true_and, or_assoc]
 
 end cand
+
+/-! ### the constraints of one cell -/
+
+section cell
+variable {pb : Problem} (σ : Asg) (g : Nat → Nat → Bool)
+  (hg : ∀ y, y < pb.height → ∀ x, x < pb.width → g y x = σ.b (y * pb.width + x))
+include hg
+
+theorem cell_sem (hwf : WellFormed pb) {y x : Nat} (hy : y < pb.height) (hx : x < pb.width) :
+    (∀ c ∈ cellE pb y x, eval σ c = some (.b true)) ↔
+      ((val pb y x = -1 → ¬ Cape pb g y x) ∧ (val pb y x ≠ -1 → Cape pb g y x)) ∧
+      (2 ≤ val pb y x → ∃ d ∈ dirs, LineIs pb g y x d (val pb y x)) := by
+  have hvc := val_cases hwf hy hx
+  have ecv := eval_cv σ g hg hy hx
+  have ect := eval_count σ g hg hy hx
+  have eeq := eval_cmp (op := .eq) rfl ect (eval_litI σ 1)
+  have ene := eval_cmp (op := .ne) rfl ect (eval_litI σ 1)
+  have eimp := eval_thenRaw ecv ene
+  unfold thenRaw at eimp
+  unfold cellE Cape
+  rcases hvc with hv | hv | hv
+  · rw [if_pos hv]
+    simp only [List.mem_singleton, forall_eq, eimp, hv]
+    cases g y x <;> simp
+  · rw [if_neg (by omega), if_pos hv]
+    simp only [List.append_nil, List.mem_cons, List.not_mem_nil, or_false, forall_eq_or_imp, forall_eq, ecv, eeq, hv]
+    simp
+  · obtain ⟨m, hm⟩ : ∃ m : Nat, val pb y x = (m : Int) := ⟨(val pb y x).toNat, by omega⟩
+    rw [if_neg (by omega), if_neg (by omega)]
+    simp only [List.cons_append, List.nil_append, List.mem_cons, List.not_mem_nil, or_false, forall_eq_or_imp,
+      forall_eq, ecv, eeq, hm, Int.toNat_natCast]
+    by_cases h0 : g y x = true
+    · rw [cands_sem σ g hg hy hx (by omega) h0]
+      have h1 : ¬ ((m : Int) = -1) := by omega
+      have h2 : (2 : Int) ≤ (m : Int) := by omega
+      simp [h0, h1, h2]
+    · have h1 : ¬ ((m : Int) = -1) := by omega
+      simp [h0, h1]
+
+end cell
 
 end Cspuz.Proofs.C11NurimisakiC
